@@ -261,7 +261,7 @@ func healDrain(c *Cluster, rng *rand.Rand) {
 				for len(c.links[k]) > 0 && c.viol == nil {
 					f := c.links[k][0]
 					delivered := c.nodes[to] != nil && c.nodes[to].up
-					c.Do(Action{K: ADeliver, N: from, M: to, I: 0})
+					c.Do(Action{K: ADeliver, N: from, M: to, I: f.Seq})
 					work = true
 					if f.Type == pb.MsgSnap {
 						c.Do(Action{K: ASnapReport, N: from, M: to, B: delivered})
